@@ -207,6 +207,13 @@ def _item(it):
     raise NotEncodable(f'regex construct {op}')
 
 
+class _Match:
+    """truthy stand-in for a match object on a symbolic string"""
+
+    def __bool__(self):
+        return True
+
+
 class Pattern:
     def __init__(self, pattern, flags=0):
         self.pattern = pattern
@@ -231,14 +238,22 @@ class Pattern:
             parts = [r]
         return mk_bool(z3.InRe(q.e, _cat(parts)))
 
+    # On a symbolic string the outcome is decided at the call (the path forks),
+    # so both idioms work: `if regex.search(q)` and `regex.search(q) is not None`.
     def search(self, q):
-        return self._sym(q, 'search') if isinstance(q, SymStr) else self._real.search(q)
+        if isinstance(q, SymStr):
+            return _Match() if bool(self._sym(q, 'search')) else None
+        return self._real.search(q)
 
     def match(self, q):
-        return self._sym(q, 'match') if isinstance(q, SymStr) else self._real.match(q)
+        if isinstance(q, SymStr):
+            return _Match() if bool(self._sym(q, 'match')) else None
+        return self._real.match(q)
 
     def fullmatch(self, q):
-        return self._sym(q, 'full') if isinstance(q, SymStr) else self._real.fullmatch(q)
+        if isinstance(q, SymStr):
+            return _Match() if bool(self._sym(q, 'full')) else None
+        return self._real.fullmatch(q)
 
 
 class SymRe:
@@ -267,7 +282,7 @@ class SymRe:
 def found(pattern, q):
     """reference semantics of 'pattern found in q (regular-expression search)'"""
     if isinstance(q, SymStr):
-        return Pattern(pattern).search(q)
+        return Pattern(pattern)._sym(q, 'search')
     return _re.search(pattern, q) is not None
 
 
